@@ -62,7 +62,7 @@ def witness(p, q, folded):
 class Overlap(Exception):
     pass
 
-def gen(prog, pid):
+def gen(prog, pid, found_err_ty=None):
     E = prog.name
     en = prog.enabled()
     dv = default_variant(prog)
@@ -72,6 +72,11 @@ def gen(prog, pid):
     tp = vspec.ty_use(prog)
     custom_err = prog.parse_err_ty is not None and dv is None
     err_ty = prog.parse_err_ty if custom_err else 'crate::strum::ParseError'
+    expected_err_ty = err_ty
+    if found_err_ty:
+        # the lemma is stated over whatever error type the generated impl declares; that this is the type the property
+        # demands is a separate (signature) obligation of the unit
+        err_ty = found_err_ty
 
     pre = []
     for v in normal:
@@ -96,7 +101,9 @@ def gen(prog, pid):
             cl.append(('hit_never_lost', 'h_any(s) ==> %s && !(%s is %s)' % (ok, val, dv.ident)))
         else:
             exp = 'err_spec(s@)' if custom_err else 'crate::strum::ParseError::VariantNotFound'
-            cl.append(('err_only_when_nothing_hit', '%s is Err ==> !h_any(s) && %s->Err_0 == %s' % (rv, rv, exp)))
+            if found_err_ty and found_err_ty.split('::')[-1].strip() != expected_err_ty.split('::')[-1].strip():
+                exp = None
+            cl.append(('err_only_when_nothing_hit', ('%s is Err ==> !h_any(s) && %s->Err_0 == %s' % (rv, rv, exp)) if exp else ('%s is Err ==> !h_any(s)' % rv)))
             cl.append(('hit_never_lost', 'h_any(s) ==> %s' % ok))
         return cl
 
@@ -142,7 +149,10 @@ def gen(prog, pid):
         concl.append('!h_any(s) ==> r is Ok && %s' % vspec.variant_pred(prog, dv, 'r->Ok_0', field_preds=lambda i, f, b: '%s == cap_of(s@)' % b))
     else:
         exp = 'err_spec(s@)' if custom_err else 'crate::strum::ParseError::VariantNotFound'
-        concl.append('!h_any(s) ==> r is Err && r->Err_0 == %s' % exp)
+        if found_err_ty and found_err_ty.split('::')[-1].strip() != expected_err_ty.split('::')[-1].strip():
+            concl.append('!h_any(s) ==> r is Err')
+        else:
+            concl.append('!h_any(s) ==> r is Err && r->Err_0 == %s' % exp)
     lem.append('// @@FN vx_complete\nproof fn vx_complete%s(s: &str, r: ::core::result::Result<%s, %s>) %s\n    requires\n        %s,\n    ensures\n        %s,\n{\n    vx_disjoint(s);\n}\n// @@END vx_complete' % (
         g_decl, tp, err_ty, where, ',\n        '.join(t for _, t in clauses('r')), ',\n        '.join(concl)))
     # reachability: from_str and try_from are callable on any string (no precondition) and a declared spelling hits
